@@ -651,8 +651,8 @@ func (fs *FuncSpec) addClause(t, file string, ln int) error {
 			}
 			fs.Ats = append(fs.Ats, &AtSpec{Callee: point, Ord: ord, Clause: c})
 		case "ghost":
-			if !isSend {
-				return fmt.Errorf("ghost updates are supported at send sites only")
+			if !isSend && !isMapUpd {
+				return fmt.Errorf("ghost updates are supported at send and map-update sites only")
 			}
 			k := strings.Index(b, "=")
 			if k < 0 {
